@@ -902,6 +902,17 @@ func (e *SpecEnv) call(x *ECall) Val {
 			return e.boxed(t, v.C[1])
 		}
 		return Val{T: t, C: []string{v.C[1]}}
+	case "tag":
+		// tag(x): the dynamic type of interface x as a number (0 for nil)
+		v := e.eval(x.Args[0])
+		if len(v.C) != 2 {
+			sfail("tag() of non-interface")
+		}
+		return Val{T: MathInt, C: []string{v.C[0]}}
+	case "tagof":
+		// tagof(T): the number standing for dynamic type T
+		t := e.fx.eng.resolveType(e.pkg, x.Args[0].String())
+		return Val{T: MathInt, C: []string{e.fx.eng.typeTag(t)}}
 	case "box":
 		// box(r, T): the value of type T stored in the interface box r (r: a ref(...) of an interface holding a T)
 		v := e.eval(x.Args[0])
